@@ -326,6 +326,10 @@ Proof.
   pose proof (ecc_den_pos lat) as Hd.
   replace (sin lat ^ 2) with (sin lat * sin lat) by ring.
   set (D := 1 - 680829018611886890151 / 101701578976922500000000 * (sin lat * sin lat)) in *.
+  (* whatever way the source spells the argument of the square root *)
+  repeat match goal with
+         | |- context [sqrt ?a] => lazymatch a with D => fail | _ => replace a with D by (unfold D; ring) end
+         end.
   assert (Hq : sqrt D * sqrt D = D) by (apply sqrt_sqrt; lra).
   assert (Hq0 : 0 < sqrt D) by (apply sqrt_lt_R0; exact Hd).
   pose proof (sin2_cos2 lat) as H1. unfold Rsqr in H1.
